@@ -161,6 +161,16 @@ var workloads = map[string]func(env *wl.Env){
 		}
 		_ = s.Close()
 	},
+	// three goroutines call Invoke at once: one RPC in flight, two queued behind it
+	"concurrent3": func(env *wl.Env) {
+		var wg vs.WaitGroup
+		for _, rpc := range []string{"/uA", "/uB", "/uC"} {
+			rpc := rpc
+			wg.Add(1)
+			vs.Go("caller"+rpc[2:], func() { _ = unary(env, rpc); wg.Done() })
+		}
+		wg.Wait()
+	},
 	"bidi": func(env *wl.Env) {
 		s, err := env.Conn.NewStream(context.Background(), "/bdE", enc.Bytes{})
 		if err != nil {
@@ -324,7 +334,7 @@ func calls(cfg wl.Config, wname string) (cw, cr, sw, sr int, payloads map[string
 
 func plans(tier string) []mc.Plan {
 	var ps []mc.Plan
-	wnames := []string{"unary", "cstream", "sstream", "bidi", "unread"}
+	wnames := []string{"unary", "cstream", "sstream", "bidi", "unread", "concurrent3"}
 	if tier == "thorough" {
 		wnames = append(wnames, "unary2")
 	}
